@@ -79,7 +79,7 @@ def call_value(ex, st, f, pos, named, stars, sargs, node, ov=None):
         if h is not None:
             _nostar(stars, sargs, node)
             return h(ex, st, pos, named, node)
-        k = BY_OBJECT.get(id(getattr(f.obj, '__func__', f.obj)))
+        k = BY_OBJECT.get(id(getattr(f.obj, '__func__', f.obj))) or contract_by_qual(f.obj)
         if k is not None: return apply_contract(ex, st, k, None, pos, named, stars, sargs, node)
         if isinstance(f.obj, type) and issubclass(f.obj, BaseException):
             return [(st, PExc(f.obj.__name__, val=Val.Obj(fresh('exc', IntSort())), where='raise'))]
@@ -96,6 +96,14 @@ def call_value(ex, st, f, pos, named, stars, sargs, node, ov=None):
     h = ex.spec.calls.get('*value*')
     if h is not None: return h(ex, st, f, pos, named, stars, sargs, node)
     raise Unsupported(f'call of a value {f!r} (line {node.lineno} in {ex.spec.qual}): no interface contract')
+
+
+def contract_by_qual(obj):
+    obj = getattr(obj, '__func__', obj)
+    q = f"{getattr(obj, '__module__', '?')}:{getattr(obj, '__qualname__', '?')}"
+    for c in C.CONTRACTS.values():
+        if c.qual == q: return c
+    return None
 
 
 def _nostar(stars, sargs, node):
@@ -426,7 +434,26 @@ def inst_of(ref, cls):
 def opq_inst(k, cls):
     if cls is object: return BoolVal(True)
     if cls in (str, int, float, bool, dict, tuple, list, type(None)): return BoolVal(False)
+    if getattr(cls, '__module__', '').startswith('edzed'):
+        return BoolVal(False)        # encoding: instances of edzed classes are heap objects (Obj), never opaque user values
     return _opq_inst(k, IntVal(class_id(cls)))
+
+
+def lattice_axioms():
+    """subclass => superclass for the edzed base classes (quantified over all heap objects), and the
+    SBlock/CBlock exclusion that Block.__init__ enforces"""
+    names = ['Block', 'SBlock', 'CBlock', 'Addon', 'AddonPersistence', 'AddonAsync', 'AddonMainTask', 'AddonAsyncInit', 'FSM', 'Not',
+             'ControlBlock']
+    cl = [C_class(n) for n in names if C_class(n) is not None]
+    r = Int('r!lat')
+    out = []
+    for a in cl:
+        for b in cl:
+            if a is not b and issubclass(a, b):
+                out.append(ForAll([r], Implies(inst_of(r, a), inst_of(r, b))))
+    sb, cb = C_class('SBlock'), C_class('CBlock')
+    out.append(ForAll([r], Not(And(inst_of(r, sb), inst_of(r, cb)))))
+    return out
 
 
 def class_axioms(ref, classes):
@@ -639,10 +666,24 @@ def _d_get(ex, st, recv, pos, named, node):
 def _d_copy(ex, st, recv, pos, named, node): return [(st, PDict(recv.arr))]
 
 
-@method(PDict, 'items')
 @method(PDict, 'keys')
-@method(PDict, 'values')
 def _d_view(ex, st, recv, pos, named, node): return [(st, recv)]
+
+
+@method(PDict, 'items')
+def _d_items(ex, st, recv, pos, named, node): return [(st, PItems(recv))]
+
+
+class PItems(PV):
+    """dict.items() view: iterated as (key, value) pairs in arbitrary order"""
+    def __init__(self, d): self.d = d
+
+
+@builtin(setattr)
+def _setattr(ex, st, pos, named, node):
+    # dynamic attribute stores are not part of the heap model: the (two) sites are checked by scan obligations
+    ex.spec.note_assumption('setattr with a dynamic name is outside the heap model (sites checked by scan: x_ attributes, resolver)')
+    return [(st, P_NONE)]
 
 
 @method(PMap, 'get')
